@@ -84,9 +84,20 @@ func PropC16(c *vs.Case, f Factory) error {
 	fin := scn.Cfg.FinalizerName()
 	pd := env.W.Sim.Def(scn.Cfg.ParentResource)
 	steps := 2 + c.Int(4)
+	// directed arm: the decorator is about to add its finalizer for the first time while its cached copy of
+	// the target lists other finalizers than the live object does
+	directed := scn.Cfg.FinalizeHook && c.Prob(1, 5)
+	if directed {
+		env.W.SyncAll()
+		c.Class("directed:first-finalizer-add-on-stale-cache")
+	}
 	for s := 0; s < steps; s++ {
 		edited := false
-		switch c.Weighted(5, 2, 2, 1, 1, 1, 1, 1) {
+		op := c.Weighted(5, 2, 2, 1, 1, 1, 1, 1)
+		if directed && s == 0 {
+			op = 7
+		}
+		switch op {
 		case 7: // someone else's finalizer comes or goes on the live target
 			env.W.Sim.ExtUpdate(scn.Cfg.ParentResource, scn.ParentNS(), scn.ParentName(), func(o map[string]any) {
 				m := metaOfMap(o)
@@ -165,7 +176,7 @@ func PropC16(c *vs.Case, f Factory) error {
 			log = append(log, "spec edited")
 			edited = true
 		}
-		stale := edited && c.Prob(1, 4)
+		stale := edited && (c.Prob(1, 3) || (directed && s == 0))
 		if stale {
 			// the controller's cache has not seen the latest edit of the target yet
 			for _, r := range env.W.ResourceNames() {
